@@ -1,25 +1,44 @@
 #![allow(clippy::all)]
 #![allow(dead_code)]
 mod core;
+#[cfg(not(feature = "c19slim"))]
 mod c01;
 mod c02;
+#[cfg(not(feature = "c19slim"))]
 mod c03;
+#[cfg(not(feature = "c19slim"))]
 mod c04;
+#[cfg(not(feature = "c19slim"))]
 mod c04s;
+#[cfg(not(feature = "c19slim"))]
 mod c05;
+#[cfg(not(feature = "c19slim"))]
 mod c06;
+#[cfg(not(feature = "c19slim"))]
 mod c07;
+#[cfg(not(feature = "c19slim"))]
 mod c08;
+#[cfg(not(feature = "c19slim"))]
 mod c09;
+#[cfg(not(feature = "c19slim"))]
 mod c10;
+#[cfg(not(feature = "c19slim"))]
 mod c11;
+#[cfg(not(feature = "c19slim"))]
 mod c12;
 mod c13;
+#[cfg(not(feature = "c19slim"))]
 mod c14;
+#[cfg(not(feature = "c19slim"))]
 mod c15;
+#[cfg(not(feature = "c19slim"))]
 mod c16;
+#[cfg(not(feature = "c19slim"))]
 mod c17;
+#[cfg(not(feature = "c19slim"))]
 mod c18;
+mod c19;
+#[cfg(not(feature = "c19slim"))]
 mod c20;
 mod plonkm;
 mod recm;
@@ -94,24 +113,44 @@ fn main() {
     }
     let ctx = Ctx::new(&id, tier, filter);
     let code = match id.as_str() {
+        #[cfg(not(feature = "c19slim"))]
         "C01" => c01::run(&ctx),
         "C02" => c02::run(&ctx),
+        #[cfg(not(feature = "c19slim"))]
         "C03" => c03::run(&ctx),
+        #[cfg(not(feature = "c19slim"))]
         "C04" => c04::run(&ctx),
+        #[cfg(not(feature = "c19slim"))]
         "C05" => c05::run(&ctx),
+        #[cfg(not(feature = "c19slim"))]
         "C06" => c06::run(&ctx),
+        #[cfg(not(feature = "c19slim"))]
         "C07" => c07::run(&ctx),
+        #[cfg(not(feature = "c19slim"))]
         "C08" => c08::run(&ctx),
+        #[cfg(not(feature = "c19slim"))]
         "C09" => c09::run(&ctx),
+        #[cfg(not(feature = "c19slim"))]
         "C10" => c10::run(&ctx),
+        #[cfg(not(feature = "c19slim"))]
         "C11" => c11::run(&ctx),
+        #[cfg(not(feature = "c19slim"))]
         "C12" => c12::run(&ctx),
         "C13" => c13::run(&ctx),
+        #[cfg(not(feature = "c19slim"))]
         "C16" => c16::run(&ctx),
+        #[cfg(not(feature = "c19slim"))]
         "C17" => c17::run(&ctx),
+        #[cfg(not(feature = "c19slim"))]
         "C18" => c18::run(&ctx),
+        "C19" => c19::run(&ctx),
+        "C19-keygen" => c19::keygen_main(&args[2..]),
+        "C19-verify" => c19::verify_main(&args[2..]),
+        #[cfg(not(feature = "c19slim"))]
         "C20" => c20::run(&ctx),
+        #[cfg(not(feature = "c19slim"))]
         "C14" => c14::run(&ctx),
+        #[cfg(not(feature = "c19slim"))]
         "C15" => c15::run(&ctx),
         _ => {
             eprintln!("unknown property {id}");
